@@ -212,3 +212,57 @@ def url_decode_sites_rule(ctx, rule_id):
                           f.loc(c))
     if n < 2:
         ck.bad(rule_id, 'wpull.url', 'percent-decoding of the user-info fields', 'expected the user name and password to be percent-decoded in URLInfo.parse (found %d decode sites)' % n)
+
+
+def current_request_rule(ctx, rule):
+    """WebProcessorSession._process_loop: on every iteration the session's next request is published as item_session.request
+    before the verdict is computed and before the fetch, and the request fetched is that same value.  The filters judge
+    item_session.request and the scrapers resolve links against it, so a stale value means: the redirect target is neither
+    judged nor used as the base of its own links."""
+    import ast
+    from .. import flow as F
+    from .. import util as U
+    from ..index import norm_text, walk_no_nested
+    repo, ck = ctx.repo, ctx.check
+    pl = repo.func('wpull.processor.web:WebProcessorSession._process_loop')
+    cfg = ctx.cfg(pl)
+    loops = [n for n in walk_no_nested(pl.node) if isinstance(n, ast.While)]
+    if len(loops) != 1:
+        ck.bad(rule, pl.qual, 'one loop over the session\'s requests', 'fetch loop shape not recognised', pl.loc())
+        return
+    head = [n for n in cfg.nodes if n.kind == 'while' and n.stmt is loops[0]][0]
+    defs = U.local_defs(pl.node)
+
+    def from_next(e):
+        if isinstance(e, ast.Call) and U.attr_name(e) == 'cast' and len(e.args) == 2:
+            e = e.args[1]
+        if isinstance(e, ast.Call) and U.attr_name(e) == 'next_request':
+            return True
+        if isinstance(e, ast.Name):
+            ds = defs.get(e.id, [])
+            return bool(ds) and all(v is not None and k == 'assign' and from_next(v) for v, k, s_ in ds)
+        return False
+    pubs = [n for n in cfg.stmt_nodes() if isinstance(n.stmt, ast.Assign) and any(norm_text(t) == 'self._item_session.request' for t in n.stmt.targets)
+            and from_next(n.stmt.value)]
+    verdicts = F.stmt_nodes_where(cfg, F.has_call('_should_fetch_reason'))
+    fetches = F.stmt_nodes_where(cfg, F.has_call('_fetch_one'))
+    ok = bool(pubs) and bool(verdicts) and bool(fetches)
+    why = 'item_session.request is not set from next_request() in the loop'
+    if ok:
+        for goal in verdicts + fetches:
+            p = cfg.find_path(head, lambda m, g=goal: m is g, edge_ok=F.normal, stop=lambda m: m in pubs)
+            if p is not None:
+                ok = False
+                why = '`%s` can be reached in an iteration before item_session.request was set to the next request' % norm_text(goal.stmt)[:60]
+        for f in fetches:
+            for c in F.node_calls(f, '_fetch_one'):
+                a = c.args[0] if c.args else None
+                if isinstance(a, ast.Call) and U.attr_name(a) == 'cast' and len(a.args) == 2:
+                    a = a.args[1]
+                same = a is not None and (norm_text(a) == 'self._item_session.request' or (
+                    isinstance(a, ast.Name) and from_next(a) and any(isinstance(p_.stmt.value, ast.Name) and p_.stmt.value.id == a.id for p_ in pubs)))
+                if not same:
+                    ok = False
+                    why = 'the request fetched (`%s`) is not the one published as item_session.request' % (norm_text(a) if a is not None else '?')
+    ck.expect(ok, rule, pl.qual, 'item_session.request = next request, before the verdict and the fetch, and the request fetched',
+              'the request the filters judge and the scrapers use as base URL is not the request of the current hop: %s' % why, pl.loc(loops[0]))
